@@ -953,7 +953,16 @@ func runStorage(profile string, seed int64, histories, steps int, out *Emitter) 
 				if mix.forms+mix.sign > 0 {
 					nCases = 7
 				}
-				switch r.Intn(nCases) {
+				gcase := r.Intn(nCases)
+				if g.qr.Intn(5) == 0 {
+					gcase = 7 // the proof window moves: files keep the interval they were posted with
+				}
+				switch gcase {
+				case 7:
+					np.ProofWindow = []int64{np.ProofWindow * 3, np.ProofWindow + 40, np.ProofWindow / 2, 2, 500}[g.qr.Intn(5)]
+					if np.ProofWindow < 2 {
+						np.ProofWindow = 2
+					}
 				case 4, 5: // the quorum moves while forms are collecting signatures
 					np.AttestMinToPass = int64(r.Intn(int(np.AttestFormSize) + 1))
 					if r.Intn(2) == 0 && np.AttestMinToPass > 0 {
@@ -999,6 +1008,9 @@ func runStorage(profile string, seed int64, histories, steps int, out *Emitter) 
 					if np.AttestFormSize != old.AttestFormSize {
 						ch["AttestFormSize"] = np.AttestFormSize
 					}
+					if np.ProofWindow != old.ProofWindow {
+						ch["ProofWindow"] = np.ProofWindow
+					}
 					// like a proposal: all changes or none
 					cctx, write := c.Ctx().CacheContext()
 					if err := c.GovSetParams(cctx, sttypes.ModuleName, ch); err != nil {
@@ -1015,6 +1027,7 @@ func runStorage(profile string, seed int64, histories, steps int, out *Emitter) 
 				}
 				want["collateralPrice"], want["pricePerTbPerMonth"], want["polRatio"], want["referralCommission"] = np.CollateralPrice, np.PricePerTbPerMonth, np.PolRatio, np.ReferralCommission
 				want["attestMinToPass"], want["attestFormSize"] = np.AttestMinToPass, np.AttestFormSize
+				want["proofWindow"] = np.ProofWindow
 				out.Emit(map[string]interface{}{"mod": "storage", "hist": hi, "i": i, "h": c.H, "now": c.T.UnixNano(), "pre": pre, "op": map[string]interface{}{"setParams": want}, "ok": ok, "post": post, "badKeys": bad, "users": g.users})
 				out.Count(profile+".setParams", ok)
 				continue
